@@ -16,7 +16,7 @@ import time
 
 SEEDED = "/verif/seeded"
 REPO = "/repo"
-SCRATCH = "/tmp/verif-seeded-wt"      # with --scratch: a worktree outside /repo, so /repo itself stays untouched
+SCRATCH = f"/tmp/verif-seeded-wt-{os.getpid()}"      # with --scratch: a worktree outside /repo, so /repo itself stays untouched
 
 
 def sh(cmd, **kw):
@@ -29,8 +29,8 @@ def clean():
 
 def run_check(prop, tier, repo=REPO):
     t0 = time.time()
-    p = sh(f"/venv/bin/python /verif/check.py {prop} --tier {tier}", env=dict(os.environ, VERIF_SEED="1", VERIF_REPO=repo, VERIF_EVIDENCE_DIR="/tmp/verif-seeded-out/evidence",
-                                                                              VERIF_REPLAY_DIR="/tmp/verif-seeded-out/replays"))
+    p = sh(f"/venv/bin/python /verif/check.py {prop} --tier {tier}", env=dict(os.environ, VERIF_SEED="1", VERIF_REPO=repo, VERIF_EVIDENCE_DIR=f"/tmp/verif-seeded-out-{os.getpid()}/evidence",
+                                                                              VERIF_REPLAY_DIR=f"/tmp/verif-seeded-out-{os.getpid()}/replays"))
     first = next((l for l in p.stdout.splitlines() if l.startswith("VIOLATION")), "")
     return p.returncode, first, round(time.time() - t0, 1)
 
@@ -77,7 +77,10 @@ def main():
             results[name] = res
         finally:
             sh(f"git -C {repo} checkout -- .")
-        json.dump(results, open(results_path, "w"), indent=1, sort_keys=True)
+        cur = json.load(open(results_path)) if os.path.exists(results_path) else {}
+        cur[name] = results[name]
+        json.dump(cur, open(results_path, "w"), indent=1, sort_keys=True)
+    results = json.load(open(results_path)) if os.path.exists(results_path) else results
     if repo == SCRATCH:
         sh(f"git -C {REPO} worktree remove --force {SCRATCH}")
     write_md(results)
